@@ -57,11 +57,12 @@ CONSTANTS Mode,        \* "parse" | "str"
           Inds         \* str: space-argument menu entries used
 
 VARIABLES text,        \* parse: Seq(code unit)
+          shown,       \* parse: ShowStr(text), kept incrementally (output only)
           cfg,         \* parse: configuration of the pushdown automaton after reading text
           val,         \* parse: [t |-> "reject"] or the value ParseText assigns to text;  str: the value under construction
           n,           \* number of steps taken
           act          \* last action with its specified result (output only, hidden by VIEW)
-vars == <<text, cfg, val, n, act>>
+vars == <<text, shown, cfg, val, n, act>>
 
 \* ---------------------------------------------------------------------------------------------------------------
 \* Code units and their rendering
@@ -360,7 +361,7 @@ Quote(s) == <<34>> \o JoinC([i \in DOMAIN s |-> QuoteUnit(s, i)], <<>>, 1) \o <<
 
 \* ECMAScript values of part 2 (beyond JSON trees):
 \*   [t |-> "undef" | "fun" | "sym" | "big" | "hole"], [t |-> "box", p |-> primitive], [t |-> "proxy", o |-> arr / obj],
-\*   [t |-> "tj", f |-> toJSON flavour], [t |-> "date", valid |-> BOOLEAN], [t |-> "cyc"] (the root object again),
+\*   [t |-> "tj", f |-> flavour] (objects of a fixed structure: toJSON carriers, an arguments object, a typed array), [t |-> "date", valid |-> BOOLEAN], [t |-> "cyc"] (the root object again),
 \*   [t |-> "shared"] (one object {"s":1} referenced from several places)
 KeyText(id) == CASE id = "a" -> W(<<"a">>) [] id = "b" -> W(<<"b">>) [] id = "1" -> W(<<"1">>) [] id = "0" -> W(<<"0">>)
                  [] id = "10" -> W(<<"1", "0">>) [] id = "9" -> W(<<"9">>)
@@ -405,12 +406,16 @@ Node(kd) ==
     [] kd = "tjnest" -> [t |-> "tj", f |-> "nest"]         \* {toJSON: function () { return {x: 2, toJSON: function () { return 1 }} }}
     [] kd = "tjundef" -> [t |-> "tj", f |-> "undef"]       \* {toJSON: function () {}}
     [] kd = "tjnon" -> [t |-> "tj", f |-> "non"]           \* {toJSON: 5, y: 1}: a toJSON that is not callable is not called
+    [] kd = "tjfun" -> [t |-> "tj", f |-> "fun"]           \* a function with an own toJSON method returning "F"
+    [] kd = "big7" -> [t |-> "tj", f |-> "big7"]           \* the BigInt 7 while BigInt.prototype.toJSON maps 7 to "seven" (other BigInts to themselves)
+    [] kd = "args" -> [t |-> "tj", f |-> "args"]           \* an arguments object (1, 2): not an array
+    [] kd = "typed" -> [t |-> "tj", f |-> "typed"]         \* new Uint8Array([1, 2]): not an array
     [] kd = "date0" -> [t |-> "date", valid |-> TRUE]      \* new Date(0)
     [] kd = "datenan" -> [t |-> "date", valid |-> FALSE]   \* new Date(NaN)
     [] kd = "cyc" -> [t |-> "cyc"]
     [] kd = "shared" -> [t |-> "shared"]
 IsContainerKind(kd) == kd \in {"obj", "arr", "pxobj", "pxarr"}
-IsObjectValue(v) == v.t \in {"arr", "obj", "proxy", "box", "tj", "date", "fun", "shared"}     \* typeof "object" / "function"
+IsObjectValue(v) == v.t \in {"arr", "obj", "proxy", "box", "date", "fun", "shared"} \/ (v.t = "tj" /\ v.f # "big7")     \* typeof "object" / "function"
 
 \* value handed to the replacer / serialiser after the toJSON step (25.5.2.2 step 2)
 TjPrefix == W(<<"t", "j", ":">>)
@@ -421,11 +426,14 @@ AfterToJSON(v, key) ==
                         [] v.f = "nest" -> [t |-> "tj", f |-> "inner"]
                         [] v.f = "inner" -> N1
                         [] v.f = "undef" -> Undef
-                        [] v.f = "non" -> v)
+                        [] v.f = "fun" -> JStr(W(<<"F">>))
+                        [] v.f = "big7" -> JStr(W(<<"s", "e", "v", "e", "n">>))
+                        [] v.f \in {"non", "args", "typed"} -> v)
   ELSE IF v.t = "date" THEN (IF v.valid THEN JStr(Date0T) ELSE JNull)        \* Date.prototype.toJSON
   ELSE v
 \* own members of the toJSON-carrying objects that are serialised as objects (toJSON is applied once per property only)
 TjStruct(f) == IF f = "inner" THEN [t |-> "obj", e |-> <<Mem(KeyText("x"), JNum(<<50>>)), Mem(KeyText("toJSON"), [t |-> "fun"])>>]
+               ELSE IF f \in {"args", "typed"} THEN [t |-> "obj", e |-> <<Mem(KeyText("0"), N1), Mem(KeyText("1"), JNum(<<50>>))>>]
                ELSE IF f = "non" THEN [t |-> "obj", e |-> <<Mem(KeyText("toJSON"), JNum(<<53>>)), Mem(KeyText("y"), N1)>>]
                ELSE [t |-> "obj", e |-> <<Mem(KeyText("toJSON"), [t |-> "fun"])>>]
 \* replacer functions of the menu (JavaScript source in harness/adaptors/json.js)
@@ -439,11 +447,12 @@ ListElems(id) ==
   CASE id = "allow_ba" -> <<JStr(KeyText("b")), JStr(KeyText("a"))>>
     [] id = "allow_mixed" -> <<JStr(KeyText("a")), N1, [t |-> "box", p |-> JStr(KeyText("b"))], [t |-> "obj", e |-> <<>>],
                                JStr(KeyText("a")), [t |-> "box", p |-> N1], JNull, JTrue, Undef>>
+    [] id = "allow_nums" -> <<JNum(ZeroT), JNum(MZeroT), JNum(W(<<"1", ".", "5">>)), JNum(W(<<"1", "e", "+", "2", "1">>)), JStr(KeyText("1")), N1, JNum(NaNT)>>
     [] id = "allow_empty" -> <<>>
     [] id = "allow_h" -> <<JStr(KeyText("h")), JStr(KeyText("a"))>>
     [] id = "allow_px" -> <<JStr(KeyText("b"))>>                               \* new Proxy(["b"], {}): IsArray sees through
 ListItem(v) == IF v.t = "str" THEN v.v
-               ELSE IF v.t = "num" THEN v.v                                       \* ToString(number)
+               ELSE IF v.t = "num" THEN (IF v.v = MZeroT THEN ZeroT ELSE v.v)       \* ToString(number)
                ELSE IF v.t = "box" /\ v.p.t \in {"str", "num"} THEN v.p.v
                ELSE <<-1>>                                                        \* undefined: not added
 RECURSIVE PropList(_, _, _)
@@ -614,7 +623,7 @@ Append1(id) ==
          t2 == text \o p
          r == ParseText(t2) IN
      /\ r.d
-     /\ text' = t2 /\ cfg' = PRun(cfg, p, 1) /\ n' = n + 1
+     /\ text' = t2 /\ shown' = shown \o ShowStr(p) /\ cfg' = PRun(cfg, p, 1) /\ n' = n + 1
      /\ val' = IF r.ok THEN r.v ELSE Reject
      /\ act' = [op |-> "app", p |-> ShowStr(p), res |-> Outcome(r)]
 \* single-character corruptions of the current text (self loops)
@@ -630,7 +639,7 @@ Edit(kind, i, c) ==
      /\ r.d
      /\ Assert(r.ok = Accepts(t2), <<"grammar and automaton disagree on", ShowStr(t2)>>)
      /\ act' = [op |-> "edit", k |-> kind, i |-> i, c |-> IF kind = "del" THEN "-" ELSE Show(c), res |-> Outcome(r)]
-  /\ UNCHANGED <<text, cfg, val, n>>
+  /\ UNCHANGED <<text, shown, cfg, val, n>>
 
 \* ---------------------------------------------------------------------------------------------------------------
 \* Part 2: building a value, stringifying it
@@ -658,7 +667,7 @@ SetRoot(kd) ==
   /\ Mode = "str" /\ val = None /\ kd \notin {"hole", "cyc"}
   /\ val' = Node(kd) /\ n' = n + 1
   /\ act' = [op |-> "root", kind |-> kd, res |-> "ok"]
-  /\ UNCHANGED <<text, cfg>>
+  /\ UNCHANGED <<text, shown, cfg>>
 Add(p, kid, kd) ==
   /\ Mode = "str" /\ val # None /\ Size(val) < MaxNodes
   /\ LET c == Cont(NodeAt(val, p)) IN
@@ -667,7 +676,7 @@ Add(p, kid, kd) ==
      /\ act' = [op |-> "add", path |-> p, k |-> IF kid = "-" THEN "-" ELSE ShowStr(KeyText(kid)), a |-> IF kid = "-" THEN "e" ELSE KeyAttr(kid),
                 kind |-> kd, res |-> "ok"]
   /\ n' = n + 1
-  /\ UNCHANGED <<text, cfg>>
+  /\ UNCHANGED <<text, shown, cfg>>
 \* JSON.stringify(val, replacer, space): the text, and the rendering of what JSON.parse returns for it
 \* (a gap that is not white space makes the text of a non-empty container unparsable; pb = "F": the text contains an
 \* escaped lone surrogate, parsing it back falls under the documented exception and is not compared)
@@ -681,15 +690,15 @@ Stringify(rid, iid) ==
   /\ Mode = "str" /\ val # None
   /\ LET o == StrOutcome(Ser(Replacer(rid), <<>>, val), Gap(iid)) IN
      act' = [op |-> "str", rep |-> rid, ind |-> iid, pb |-> o.pb, res |-> o.res]
-  /\ UNCHANGED <<text, cfg, val, n>>
+  /\ UNCHANGED <<text, shown, cfg, val, n>>
 \* Object.MarshalJSON: JSON.stringify(o) without replacer and space; "null" where stringify gives undefined
 Marshal ==
   /\ Mode = "str" /\ val # None /\ IsObjectValue(val)
   /\ act' = [op |-> "marshal", res |-> LET j == Ser(NoRep, <<>>, val) IN
                                         IF j.t = "undef" THEN "null" ELSE IF j.t = "TypeError" THEN "TypeError" ELSE ShowStr(Txt(j, <<>>, <<>>))]
-  /\ UNCHANGED <<text, cfg, val, n>>
+  /\ UNCHANGED <<text, shown, cfg, val, n>>
 
-Init == /\ text = <<>> /\ cfg = Cfg0 /\ n = 0 /\ act = [op |-> "init"]
+Init == /\ text = <<>> /\ shown = "" /\ cfg = Cfg0 /\ n = 0 /\ act = [op |-> "init"]
         /\ val = IF Mode = "parse" THEN Reject ELSE None
 Next == \/ \E id \in PieceIds : Append1(id)
         \/ \E i \in 1..Len(text) : Edit("del", i, 0) \/ (\E c \in EditChars : Edit("rep", i, c))
@@ -760,8 +769,8 @@ Shape(v) ==
     [] v.t = "arr" -> "[" \o JoinS([i \in DOMAIN v.e |-> Shape(v.e[i])], ",", 1) \o "]"
     [] v.t = "obj" -> LET o == KeyOrder(v.e) IN
                       "{" \o JoinS([i \in DOMAIN o |-> (IF o[i].a = "h" THEN "~" ELSE "") \o ShowQStr(o[i].k) \o ":" \o Shape(o[i].v)], ",", 1) \o "}"
-StOf(t, v, m) == IF Mode = "parse" THEN [text |-> ShowStr(t), n |-> m] ELSE [val |-> v, n |-> m]
-ObsOf(t, v, m) == IF Mode = "parse" THEN [text |-> ShowStr(t), n |-> m] ELSE [shape |-> Shape(v), n |-> m]
-Emit == PrintT(ToJson([f |-> StOf(text, val, n), l |-> act', t |-> StOf(text', val', n'), o |-> ObsOf(text', val', n')]))
+StOf(t, v, m) == IF Mode = "parse" THEN [text |-> t, n |-> m] ELSE [val |-> v, n |-> m]
+ObsOf(t, v, m) == IF Mode = "parse" THEN [text |-> t, n |-> m] ELSE [shape |-> Shape(v), n |-> m]
+Emit == PrintT(ToJson([f |-> StOf(shown, val, n), l |-> act', t |-> StOf(shown', val', n'), o |-> ObsOf(shown', val', n')]))
 View == <<text, val, n>>
 =============================================================================
